@@ -249,15 +249,42 @@ def bounded(tier: str) -> dict:
                     return s2
                 yield rebuild()
         return gen
+    def with_dead_employee(base_gen, cls):
+        """The node's scenarios, plus nodes with 2-3 employees of which one
+        (not necessarily the last) has lost its connection already -- the
+        state in which handle_disconnect calls handle_shutdown."""
+        def gen():
+            yield from base_gen()
+            for n in (2, 3):
+                for dead in range(n):
+                    args = (
+                        (1,) * n, (0,) * n, ((),) * n, (1,) * n, 0,
+                        (0, None) if cls is rt.Manager else None,
+                    )
+
+                    def rebuild(args=args, dead=dead):
+                        s2 = rt.mk_sched(cls, *args)
+                        s2.extra['employee_conns'][dead].closed = True
+                        s2.desc = s2.desc + ('employee %d already closed'
+                                             % dead,)
+                        s2.extra['rebuild'] = rebuild
+                        s2.extra['overrides'] = {
+                            'Conn': lambda sc: sc.extra['employee_conns'],
+                        }
+                        return s2
+                    yield rebuild()
+        return gen
     return {
         'RuntimeEmployee.initiate_shutdown': employees(False),
         'RuntimeEmployee.initiate_shutdown#peer_gone': employees(True),
         'RuntimeEmployee.complete_shutdown': employees(False),
-        'ServerBase.handle_shutdown': servers(rt.DetachedServer),
+        'ServerBase.handle_shutdown': with_dead_employee(
+            servers(rt.DetachedServer), rt.DetachedServer),
         'DetachedServer.handle_shutdown': servers(rt.DetachedServer),
         'DetachedServer.handle_disconnect#employee': servers(rt.DetachedServer),
         'AttachedServer.handle_disconnect': servers(rt.AttachedServer),
-        'Manager.handle_shutdown': managers(False),
+        'Manager.handle_shutdown': with_dead_employee(
+            managers(False), rt.Manager),
         'Manager.handle_shutdown#boss_gone': managers(True),
         'ServerBase.handle_disconnect#employee': managers(False),
     }
